@@ -470,6 +470,30 @@ def clause6_predicates_and_path(ctx, P, cg):
         raise AnalysisBroken("no store to password_file_name found")
 
 
+def clause8_account_lookups(ctx, P):
+    """who a peer IS (credentials_ok) and which account an operation touches (change_password, is_admin, is_readonly) are
+    resolved by the same function: every look-up of an account name in the user object uses one and the same getter - with two
+    getters (exact / ignoring case) two names that differ only in case name one account for one step and another for the next"""
+    LOOKUPS = ("cJSON_GetObjectItem", "cJSON_GetObjectItemCaseSensitive")
+    by = {}
+    for f in P.own_functions():
+        if f.base != "auth_file.c":
+            continue
+        for c in f.all_insts():
+            if c.op == "call" and c.callee and P.srcname_of(c.callee) in LOOKUPS and len(c.a) >= 2:
+                kt = P.strip(f, P.term(f, c.a[1]))
+                if kt[0] == "str":
+                    continue   # a member of the record, not an account
+                by.setdefault(P.srcname_of(c.callee), []).append((f, c))
+    n = sum(len(x) for x in by.values())
+    minority = min(by.values(), key=len)[0] if len(by) > 1 else None
+    ctx.ob("C20.6 R-SIB", P.fn("auth_file.c:credentials_ok"), "account-lookups-use-one-getter", len(by) == 1 and n >= 3,
+           ("%s() looks the account up with %s() at %s, the other %d look-up(s) use %s(): for account names that differ only in case "
+            "the peer is authenticated as one account and its rights / its password change are resolved against another" %
+            (minority[0].srcname, P.srcname_of(minority[1].callee), minority[1].loc, n - len(by[P.srcname_of(minority[1].callee)]),
+             "/".join(k for k in by if k != P.srcname_of(minority[1].callee)))) if minority else "%d account look-ups, one getter" % n)
+
+
 def clause7_salt_method(ctx, P):
     """the new hash uses the method of the stored one; a stored hash of a method that is not in the table is refused (falling
     back to the first table entry - DES, which looks at 8 characters only - would keep the old password valid)"""
@@ -495,6 +519,7 @@ def run(ctx):
         clause1_auth(ctx, P)
         clause6_predicates_and_path(ctx, P, cg)
         clause7_salt_method(ctx, P)
+        clause8_account_lookups(ctx, P)
         clause2_atomic(ctx, P, cg)
         clause3_write(ctx, P, cg)
         clause4_effective(ctx, P, cg)
